@@ -15,8 +15,19 @@ REAL = ['onl.sim.core.Environment (through TapEnvironment subclass)', 'onl.sim.e
 STUBS = ['process bodies are the harness interpreter body(); plain callbacks are harness closures']
 ASSUMPTIONS = ['occurrence class (urgent/normal) is derived from the event type, not from the priority passed',
                'TapEnvironment only observes schedule()/step() and prepends one probe callback']
-PROBES = ['instants_ge3', 'urgent_and_normal_same_instant', 'until_coincides_normal', 'zero_chain_ge3',
+PROBES = ['long_run_2pow20_events', 'instants_ge3', 'urgent_and_normal_same_instant', 'until_coincides_normal', 'zero_chain_ge3',
           'neg_timeout', 'interrupt_issued', 'until_refused']
+
+
+def _maybe_long_run(rng, tier, case):
+    """Rarely: one process first schedules more than 2**20 filler events, so that the occurrences of interest are
+    triggered more than a million events apart (sequence counters, tie-breakers)."""
+    if rng.random() < (1 / 2500 if tier == 'quick' else 1 / 1200):
+        procs = [it for it in case['setup'] if it.get('k') == 'proc' and it.get('ops')]
+        if procs:
+            it = rng.choice(procs)
+            it['ops'].insert(rng.randint(0, len(it['ops'])), {'op': 'tick', 'n': 2 ** 20 + rng.randint(10, 500)})
+            case['long_run'] = True
 
 
 def gen(rng, tier):
@@ -37,6 +48,7 @@ def gen(rng, tier):
     w['succeed'] = rng.choice([0, 2, 3])
     prof.handlers = ['cont', 'cont', 'rewait', 'ret', 'other', 'raise', 'none']
     case = gen_program(rng, prof)
+    _maybe_long_run(rng, tier, case)
     pool = POOLS[prof.pool]
     plan = []
     t = case['t0']
@@ -181,7 +193,7 @@ def run(case):
     global DELAYS
     w = setup_world(case)
     env = w.env
-    steps = drive(w, case.get('drive', [['run']]), max_steps=4000)
+    steps = drive(w, case.get('drive', [['run']]), max_steps=4000 + (1200000 if case.get('long_run') else 0))
     quiescent = env.peek() == float('inf')
     viol, stats, multi = check(env.log, quiescent)
     DELAYS = {}
@@ -191,6 +203,8 @@ def run(case):
     # body-level resumption instants; a resumption after the first yield of a timeout created at the
     # yield instant (creation and yield are one action in body())
     timeout_body_check(env.log, viol, stats)
+    if case.get('long_run'):
+        stats['long_run_2pow20_events'] = 1
     res = {'viol': viol, 'digest': digest_of(env.log), 'nontrivial': bool(multi), 'stats': stats,
            'simtime': float(env.now) - float(case.get('t0', 0)), 'steps': steps,
            'interleaving': digest_of([tuple((c, k) for c, k, _ in v) for v in multi]) if multi else None}
